@@ -146,3 +146,10 @@ package surveyor
 //@   before call:SetPrivate#1 assert p.p == pp && p.s == s
 //@
 // ---- end generated AddPipe contracts ----
+//@
+//@ func (*socket).Close
+//@   ghost was = s.closed at call:Lock#1
+//@   loop 1 complete
+//@   ensures was ==> result == protocol.ErrClosed && !called("close")
+//@   ensures !was ==> isnil(result) && s.closed
+//@   before call:close#1 assert held(s.Mutex) && s.closed
